@@ -4,6 +4,7 @@
     generate_execution_instrument_map for exchange [e]; [asset_owner x k] / [instrument_owner x k]
     read, from the global tables, the exchange an index belongs to and its exchange name. *)
 From BV Require Import Base.Common Model.Index Model.ExecMap Proofs.Index Proofs.ExecMap.
+From BV Require Import Corr.C04 Proofs.CorrC04.
 
 (** every collection built by IndexedInstruments::new has unique keys *)
 Theorem C04_built_tables_wf : forall l x, build l = Some x -> indexed_wf x.
@@ -122,6 +123,16 @@ Print Assumptions C04_account_event_complete.
 Theorem C04_hypothesis_check : forall x e, indexed_wf x -> names_distinct_b x e = true -> names_distinct x e.
 Proof. exact names_distinct_b_sound. Qed.
 Print Assumptions C04_hypothesis_check.
+
+(** Link between the model theorems and the executable oracle of the correspondence check
+    (Corr/C04.v): on every well-formed case (faithful definition key; in the end-to-end part
+    every request but the last is sent on the link of the exchange owning the instrument, with
+    distinct names there, so no manager has gone before the last request) on which the model
+    reproduces everything observed, the oracle accepts the observation: all lookups of every
+    exchange's map, request and event translations, name lists and the end-to-end run. *)
+Theorem C04_oracle_sound : forall c, wf_case04 c = true -> corr_b c = true -> prop_b c = true.
+Proof. exact oracle_sound04. Qed.
+Print Assumptions C04_oracle_sound.
 
 (** Non-vacuity: two exchanges; exchange 1 owns instruments 1 and 2 and assets 2..4, so global
     index and per-exchange position differ (the situation in which the lookups repaired by
